@@ -67,6 +67,49 @@ def poly_case(rng, tier):
             'd': rng.randint(1, 4 if tier == 'quick' else 5)}     # d >= 4: multi-indices with two entries >= 2
 
 
+def poly_sep_case(rng, tier):
+    """a separable polynomial sum_n c_n x_n^{e_n} at an integer point whose components differ by many orders of magnitude: the pure
+    d-th order partials differ by far more than 1e12, each is a single exactly representable term"""
+    N = rng.randint(2, 3)
+    d = rng.randint(2, 3)
+    exps = [rng.randint(d, d + 2) for _ in range(N)]
+    terms = []
+    for n_ in range(N):
+        e = [0] * N
+        e[n_] = exps[n_]
+        terms.append((rng.choice([1, 2, -3]), e))
+    xs = [rng.choice([1, 2, -1]) for _ in range(N)]
+    big = rng.randrange(N)
+    xs[big] = rng.choice([10 ** 5, 10 ** 6, -10 ** 5])
+    terms[big] = (terms[big][0], [0 if i != big else max(exps[big], d + 2) for i in range(N)])
+    return {'op': 'poly', 'N': N, 'terms': terms, 'x': xs, 'v': [1.0] * N, 'xkind': 'float', 'd': d, 'sep': True}
+
+
+def scalar_point_fails(case):
+    """a function of one real variable seeded at a scalar point (Python float / int, 0-d array): p(x) = sum_k c_k x^k"""
+    cs, x0, v = case['c'], case['x'], case['v']
+    kind = case['kind']
+    pt = {'float': float(x0), 'int': int(x0), 'nd0': np.array(float(x0)), 'np.float64': np.float64(x0)}[kind]
+
+    def f(x):
+        tot = 0 * x
+        for k, c in enumerate(cs):
+            t = c + 0 * x
+            for _ in range(k):
+                t = t * x
+            tot = tot + t
+        return tot
+    d1 = float(sum(F(c) * k * F(x0) ** (k - 1) for k, c in enumerate(cs) if k >= 1))
+    try:
+        J = UTPM.extract_jacobian(f(UTPM.init_jacobian(pt)))
+        Jv = UTPM.extract_jac_vec(f(UTPM.init_jac_vec(pt, v)))
+    except Exception as ex:
+        return 'scalar-point-exception: seeding at the scalar point %r (%s) raised %s' % (pt, kind, type(ex).__name__ + ':' + str(ex)[:80])
+    if not close(np.ravel(J), np.array([d1]), 1e-10) or not close(np.ravel(Jv), np.array([d1 * v]), 1e-10):
+        return 'scalar-point: derivative at the scalar point %r (%s): jacobian %s, jac_vec %s, exact %r and %r' % (pt, kind, np.ravel(J), np.ravel(Jv), d1, d1 * v)
+    return None
+
+
 def peval(terms, xs):
     tot = 0
     for c, e in terms:
@@ -131,6 +174,12 @@ def poly_fails(case):
     want = np.array([float(exact_partial(terms, xs, tuple(int(a) for a in alpha)) / math.prod(math.factorial(int(a)) for a in alpha)) for alpha in mi])
     if not close(np.ravel(T), want, 1e-8):
         return 'poly-tensor: extract_tensor (d=%d) differs from the exact partial derivatives / multi-index factorial' % d
+    if case.get('sep'):
+        # entry by entry: the pure partials of a separable polynomial come from one ray each (no cancellation)
+        for k_, alpha in enumerate(mi):
+            if sum(1 for a in alpha if a) == 1 and abs(np.ravel(T)[k_] - want[k_]) > 1e-9 * abs(want[k_]):
+                return 'poly-tensor-entry: extract_tensor (d=%d) entry %s is %r, exact value %r (other entries are larger by many orders of magnitude)' % (
+                    d, [int(a) for a in alpha], float(np.ravel(T)[k_]), float(want[k_]))
     # the default (full array) mode of extract_tensor: the symmetric rank-d array of all partial derivatives
     if d <= 3:
         try:
@@ -258,6 +307,18 @@ def arrpoly_fails(case):
         return 'arrpoly-jac_vec: extract_jac_vec of an output of shape %s has shape %s / differs from the exact J v' % (oshape, np.shape(Jv))
     if np.shape(Jf) != J.shape or not close(Jf, J, 1e-10):
         return 'arrpoly-jacobian: extract_jacobian of an output of shape %s has shape %s / differs from the exact Jacobian' % (oshape, np.shape(Jf))
+    # the tensor drivers with an array-valued function (d = 1: the first-order partials of every entry), both extraction modes
+    import algopy.exact_interpolation as ei
+    mi = ei.generate_multi_indices(N, 1)
+    wantT = np.array([J[..., int(np.argmax(alpha))] for alpha in mi])
+    for full in (False, True):
+        try:
+            T = np.asarray(UTPM.extract_tensor(N, f(UTPM.init_tensor(1, x)), as_full_matrix=full), dtype=float)
+        except Exception as ex:
+            return 'arrpoly-tensor-exception: extract_tensor (d=1, as_full_matrix=%s) of an output of shape %s raised %s' % (full, oshape, type(ex).__name__ + ':' + str(ex)[:60])
+        wt = wantT if not full else np.moveaxis(J, -1, 0)
+        if T.shape != wt.shape or not close(T, wt, 1e-9):
+            return 'arrpoly-tensor: extract_tensor (d=1, as_full_matrix=%s) of an output of shape %s has shape %s / differs from the exact first-order partials' % (full, oshape, T.shape)
     return None
 
 
@@ -380,6 +441,8 @@ def replay_case(ctx, case):
         return intpoint_fails(case)
     if case.get('op') == 'arrpoly':
         return arrpoly_fails(case)
+    if case.get('op') == 'scalar-point':
+        return scalar_point_fails(case)
     if case.get('op') == 'poly':
         return poly_fails(case)
     if case.get('op') == 'smooth':
@@ -399,9 +462,9 @@ def run(ctx):
         if f:
             ctx.report({'op': 'tables', 'N': N}, 'failure', f)
     for i in range(200 if ctx.tier == 'quick' else 2500):
-        case = poly_case(rng, ctx.tier)
+        case = poly_sep_case(rng, ctx.tier) if i % 10 == 9 else poly_case(rng, ctx.tier)
         ctx.evaluations += 1
-        ctx.count('poly', 'N=%d' % case['N'], 'd=%d' % case['d'])
+        ctx.count('poly-separable-scales' if case.get('sep') else 'poly', 'N=%d' % case['N'], 'd=%d' % case['d'])
         h = canon_hash(case)
         if h not in ctx.hashes:
             ctx.hashes.add(h)
@@ -412,6 +475,14 @@ def run(ctx):
         f = poly_fails(case)
         if f:
             ctx.report(case, 'failure', f)
+    for kind in ('float', 'int', 'nd0', 'np.float64'):
+        for rep in range(3):
+            case = {'op': 'scalar-point', 'c': [rng.randint(-3, 3) for _ in range(rng.randint(2, 5))], 'x': rng.randint(-3, 3), 'v': rng.choice([2.0, -1.5, 1.0]), 'kind': kind}
+            ctx.evaluations += 1
+            ctx.count('scalar-point=' + kind)
+            f = scalar_point_fails(case)
+            if f:
+                ctx.report(case, 'failure', f)
     for i in range(40 if ctx.tier == 'quick' else 400):
         case = intpoint_case(rng, ctx.tier)
         ctx.evaluations += 1
